@@ -217,6 +217,16 @@ Definition removed_res (pre post : ostate) : list (N * N * N) :=
   filter (fun t => negb (existsb (trip_eqb t) (res_triples post))) (res_triples pre).
 Definition added_res (pre post : ostate) : list (N * N * N) :=
   filter (fun t => negb (existsb (trip_eqb t) (res_triples pre))) (res_triples post).
+(* a reservation that was given up AND made again in the same cycle (wait timeout in tryReservedAllocate, then tryNodes
+   reserves the same node for the ask again): invisible in the application view; the evidence is the preReserveConditions
+   call - predicate call with allocate = false, answered yes - that tryNodes makes only for an ask that holds NO
+   reservation at that moment *)
+Definition rereserved (pre : ostate) (st : ostep) : list (N * N * N) :=
+  filter (fun t => existsb (trip_eqb t) (res_triples (st_obs st)) &&
+                   existsb (fun pc : opred => (fst (fst (fst pc)) =? snd t) && (snd (fst (fst pc)) =? snd (fst t)) && negb (snd (fst pc)) && snd pc) (st_preds st))
+         (res_triples pre).
+Definition sched_removed (pre : ostate) (st : ostep) : list (N * N * N) := removed_res pre (st_obs st) ++ rereserved pre st.
+Definition sched_added (pre : ostate) (st : ostep) : list (N * N * N) := added_res pre (st_obs st) ++ rereserved pre st.
 Definition new_allocs (evs : list oevent) : list (N * N * N * bool) :=    (* (key, app, node, placeholder) *)
   flat_map (fun e => match e with ENewAlloc k a n _ ph => [(k, a, n, ph)] | _ => [] end) evs.
 Definition victims_of (evs : list oevent) : list (N * N) :=               (* (key, app) *)
@@ -274,8 +284,8 @@ Definition m_sched_with (deny : list (N * N)) (s : ostate) (st : ostep) (cnt fx 
   let evs := st_events st in
   if existsb (fun e => match e with ERelease _ _ t => negb (t =? TT_Preempted) | _ => false end) evs then None else
   let nas := new_allocs evs in
-  let rem := removed_res s o in
-  let add := added_res s o in
+  let rem := sched_removed s st in
+  let add := sched_added s st in
   (* one result per cycle; placeholder allocations belong to the gang fragment *)
   if (1 <? N.of_nat (length nas)) || existsb (fun x => snd x) nas || (1 <? N.of_nat (length add))
      || (negb (nilb nas) && negb (nilb add)) then None else
